@@ -54,7 +54,7 @@ def pick_molecules(rng, pool, k):
             m = smiles(smi)
         except Exception:
             continue
-        if m is None or not len(m) or len(m) > 40:
+        if m is None or not len(m) or len(m) > 32:
             continue
         out.append((smi, m))
     return out
@@ -246,11 +246,15 @@ def gen_reactions(ck, n):
 # printing CGRs and writer inputs as Coq terms
 
 def datom_term(a):
+    if a.isotope is None and not a.is_radical and not a.p_is_radical:
+        return f'(DA {zraw(a.atomic_number)} {zraw(a.charge)} {zraw(a.p_charge)})'
     return (f'(mkDAtom {zraw(a.atomic_number)} {opt(a.isotope, zraw)} {zraw(a.charge)} {b(a.is_radical)} '
             f'{zraw(a.p_charge)} {b(a.p_is_radical)})')
 
 
 def dbond_term(bd):
+    if bd.order is not None and bd.order == bd.p_order:
+        return f'(E {bd.order})'
     return f'(mkDBond {opt(bd.order, zraw)} {opt(bd.p_order, zraw)})'
 
 
@@ -258,6 +262,28 @@ def cgr_term(h):
     atoms = lst([tup(zraw(n), datom_term(a)) for n, a in h._atoms.items()])
     adj = lst([tup(zraw(n), lst([tup(zraw(k), dbond_term(bd)) for k, bd in nb.items()])) for n, nb in h._bonds.items()])
     return f'(mkCgr {atoms} {adj})'
+
+
+def atom_term(a):
+    """compact spelling of coqmol.atom_term (helpers A / B are defined in EXTRA)"""
+    if a.isotope is None and not a.is_radical and a.stereo is None:
+        return f'(A {zraw(a.atomic_number)} {zraw(a.charge)} {opt(a.implicit_hydrogens, zraw)})'
+    return coqmol.atom_term(a)
+
+
+def bond_term(bd):
+    return f'(B {int(bd)})' if bd.stereo is None else coqmol.bond_term(bd)
+
+
+def mol_term(m):
+    atoms = lst([tup(zraw(n), atom_term(a)) for n, a in m._atoms.items()])
+    adj = lst([tup(zraw(n), lst([tup(zraw(k), bond_term(bd)) for k, bd in nb.items()])) for n, nb in m._bonds.items()])
+    return f'(mkMol {atoms} {adj})'
+
+
+def skeleton_term(m):
+    """atom order and neighbour orders of a molecule (its dict-of-dicts key structure)"""
+    return tup(zl(m._atoms), coqmol.graph_term(m._bonds))
 
 
 def set_orders(r, p):
@@ -430,7 +456,18 @@ def search_cgr(ck, x, rng):
                               x.desc, 'ValueError', 'a condensed graph', 'plain comparison of the sides', replay_py=rp)
         return
     if t is None:
-        ck.count('search:cgr:numbers-collide(no truth)')
+        # colliding numbers: union() renumbers, no atom-by-atom truth; but no atom or bond of a side may get lost
+        ck.count('search:cgr:numbers-collide(counting oracle only)')
+        la = sum(len(m) for m in list(rxn.reagents) + list(rxn.reactants))
+        pa_ = sum(len(m) for m in rxn.products)
+        lb = sum(m.bonds_count for m in list(rxn.reagents) + list(rxn.reactants))
+        pb = sum(m.bonds_count for m in rxn.products)
+        na, nb = len(h._atoms), sum(1 for _ in h.bonds())
+        ck.case(('cgr-count', idx), nontrivial=True)
+        if not (max(la, pa_) <= na <= la + pa_) or not (max(lb, pb) <= nb <= lb + pb):
+            ck.counterexample(f'cgr-count:{idx}', 'the condensed graph of a reaction whose molecules share atom numbers lost or invented atoms / bonds', x.desc,
+                              (na, nb), ((max(la, pa_), la + pa_), (max(lb, pb), lb + pb)), 'counting atoms and bonds of the molecules', replay_py=rp)
+            return
     else:
         if t['clash']:
             ck.counterexample(f'compose-accepts-clash:{idx}', 'compose accepts atoms of different element/isotope under one number', x.desc,
@@ -476,6 +513,8 @@ def search_cgr(ck, x, rng):
             ck.counterexample(f'cgr-marks:{idx}:{bad[0]}', f'condensed graph: {bad[0]} differ from the independently computed differences of the sides',
                               x.desc, bad[1], bad[2], 'plain dict comparison of reactant and product sides', replay_py=rp)
             return
+    if t is None:
+        return      # union() renumbers colliding molecules by max()+1: no invariance is claimed for those
     # consistent renumbering of both sides: same marks (renumbered), same string
     nums = sorted({n for m in rxn.molecules() for n in m._atoms})
     perm = nums[:]
@@ -612,6 +651,13 @@ EXTRA = r'''From Coq Require Import Ascii.
 Import ListNotations.
 Open Scope Z_scope.
 Definition opt_str_eqb (a b : option string) : bool := option_eqb String.eqb a b.
+(* compact spellings used by the printer of the harness *)
+Definition A (n c : Z) (h : option Z) : atom := mkAtom n None c false h None.
+Definition B (o : Z) : bond := mkBond o None.
+Definition DA (n c pc : Z) : datom := mkDAtom n None c false pc false.
+Definition E (o : Z) : dbond := mkDBond (Some o) (Some o).
+Definition skel_eqb (g : mol) (sk : list Z * list (Z * list Z)) : bool :=
+  list_eqb Z.eqb (ids g) (fst sk) && list_eqb (pair_eqb Z.eqb (list_eqb Z.eqb)) (graph_of g) (snd sk).
 Definition all_true (l : list bool) : bool := forallb (fun x => x) l.
 (* MoleculeContainer.compose: observed set iteration orders; result with insertion orders; the canonical-order compose
    agrees after sorting; center_atoms; operands well-formed *)
@@ -623,17 +669,20 @@ Definition mc_parts (o1 o2 o3 : list Z) (r p : mol) (exp : pyres cgr) (centre : 
 Definition mc_ok o1 o2 o3 r p exp centre : bool := all_true (mc_parts o1 o2 o3 r p exp centre).
 Definition mc_part (k : nat) o1 o2 o3 r p exp centre : bool := nth k (mc_parts o1 o2 o3 r p exp centre) false.
 (* ReactionContainer.compose: the two unions, then compose *)
-Definition rx_parts (o1 o2 o3 : list Z) (rs gs ps : list mol) (ur up : mol) (exp : pyres cgr) (centre : list Z) : list bool :=
-  [ mol_eqb (union_all (gs ++ rs)) ur;
-    mol_eqb (union_all ps) up;
+Definition rx_parts (o1 o2 o3 : list Z) (rs gs ps : list mol) (ur up : list Z * list (Z * list Z)) (exp : pyres cgr) (centre : list Z)
+  (truth : option (list Z * list (Z * Z))) : list bool :=
+  [ skel_eqb (union_all (gs ++ rs)) ur;      (* atom order and neighbour orders of the two unions (renumbered on collisions); *)
+    skel_eqb (union_all ps) up;              (* their atoms and bonds are compared through the condensed graph below *)
     pyres_eqb cgr_eqb (rxn_compose_ord o1 o2 o3 rs gs ps) exp;
     pyres_eqb cgr_eqb (map_res cgr_norm (rxn_compose rs gs ps)) (map_res cgr_norm exp);
-    match exp with Ok h => list_eqb Z.eqb (zlsort (center_atoms h)) centre && wf_cgr h | Err _ => true end ].
-Definition rx_ok o1 o2 o3 rs gs ps ur up exp centre : bool := all_true (rx_parts o1 o2 o3 rs gs ps ur up exp centre).
-Definition rx_part (k : nat) o1 o2 o3 rs gs ps ur up exp centre : bool := nth k (rx_parts o1 o2 o3 rs gs ps ur up exp centre) false.
-(* the dynamic marks as sorted lists *)
-Definition dyn_ok (h : cgr) (atoms : list Z) (bonds : list (Z * Z)) : bool :=
-  list_eqb Z.eqb (dynamic_atoms h) atoms && list_eqb (pair_eqb Z.eqb Z.eqb) (dynamic_bonds h) bonds.
+    match exp with Ok h => list_eqb Z.eqb (zlsort (center_atoms h)) centre && wf_cgr h | Err _ => true end;
+    (* the dynamic marks of the model's result == the differences the harness computed from plain data *)
+    match truth, rxn_compose_ord o1 o2 o3 rs gs ps with
+    | Some (atoms, bonds), Ok h => list_eqb Z.eqb (dynamic_atoms h) atoms && list_eqb (pair_eqb Z.eqb Z.eqb) (dynamic_bonds h) bonds
+    | _, _ => true
+    end ].
+Definition rx_ok o1 o2 o3 rs gs ps ur up exp centre truth : bool := all_true (rx_parts o1 o2 o3 rs gs ps ur up exp centre truth).
+Definition rx_part (k : nat) o1 o2 o3 rs gs ps ur up exp centre truth : bool := nth k (rx_parts o1 o2 o3 rs gs ps ur up exp centre truth) false.
 (* ReactionContainer.__format__ for the four combinations of !c and !x; the molecule-level facts the theorems assume *)
 Definition fmol_okb (m : fmol) : bool :=
   let pcs := split_on "."%char (f_smi m) in
@@ -655,6 +704,27 @@ Definition rd_ok (ignore : bool) (data : string) (exp : pyres (option roles * li
 Definition tok_atom (symbol : string) (organic : bool) (iso : option string) (a : datom) (exp : option string) : bool :=
   opt_str_eqb (cgr_atom_str symbol organic iso a) exp.
 '''
+
+
+def localise(name, cases, failing, nparts):
+    """which part of a combined case disagrees (re-evaluates up to 8 failing cases part by part)"""
+    sub, where = [], []
+    for i in failing[:8]:
+        head, _, rest = cases[i].partition(' ')
+        if head not in nparts:
+            continue
+        for k in range(nparts[head]):
+            sub.append(f'{head[:-3]}_part {k}%nat {rest}')
+            where.append((i, k))
+    if not sub:
+        return ''
+    ok, bad, log = coqcases.run_cases(name + '_loc', 'Graph Compose RxnSmiles', sub, extra=EXTRA, shard=8)
+    if not ok:
+        return 'localisation failed: ' + log[-300:]
+    return 'failing parts (case, part): ' + str([where[j] for j in bad])
+
+
+NPARTS = {'mc_ok': 4, 'rx_ok': 6, 'fmt_ok': 5}
 
 
 def cstr_any(text):
@@ -740,7 +810,7 @@ def corr_compose(ck, rxns):
     for tok, r, p in small_space(ck, rng, ck.tier != 'quick'):
         o1, o2, o3 = set_orders(r, p)
         exp, centre, h = real_compose(r, p)
-        cases.append(f'mc_ok {zl(o1)} {zl(o2)} {zl(o3)} {coqmol.mol_term(r)} {coqmol.mol_term(p)} ({exp}) {centre}')
+        cases.append(f'mc_ok {zl(o1)} {zl(o2)} {zl(o3)} {mol_term(r)} {mol_term(p)} ({exp}) {centre}')
         meta.append(('mc', tok, r, p))
         ck.case(('mc',) + tok, nontrivial=h is not None and bool(h.center_atoms))
         ck.count('compose:small:' + ('ValueError' if h is None else 'centre' if h.center_atoms else 'no centre'))
@@ -755,12 +825,12 @@ def corr_compose(ck, rxns):
     for tok, r, p, x in mal:
         o1, o2, o3 = set_orders(r, p)
         exp, centre, h = real_compose(r, p)
-        cases.append(f'mc_ok {zl(o1)} {zl(o2)} {zl(o3)} {coqmol.mol_term(r)} {coqmol.mol_term(p)} ({exp}) {centre}')
+        cases.append(f'mc_ok {zl(o1)} {zl(o2)} {zl(o3)} {mol_term(r)} {mol_term(p)} ({exp}) {centre}')
         meta.append(('mc', tok, r, p))
         ck.case(('mc',) + tok, nontrivial=h is not None and bool(h.center_atoms))
         ck.count('compose:' + tok[0] + ':' + ('ValueError' if h is None else 'centre' if h.center_atoms else 'no centre'))
     # (3) reaction level: unions (with renumbering on collisions) + compose
-    for x in rxns:
+    for x in (rxns[:200] if ck.tier == 'quick' else rxns):
         rxn = x.rxn
         try:
             rr = list(rxn.reagents) + list(rxn.reactants)
@@ -775,17 +845,20 @@ def corr_compose(ck, rxns):
             exp, centre = f'Ok {cgr_term(h)}', zl(sorted(h.center_atoms))
         except Exception as e:
             h, exp, centre = None, exn_term(e), '[]'
-        mt = lambda ms: lst([coqmol.mol_term(m) for m in ms])
+        mt = lambda ms: lst([mol_term(m) for m in ms])
+        truth = 'None'
+        if h is not None and x.truth is not None:
+            truth = f'(Some ({zl(sorted(x.truth["atoms"]))}, {lst([tup(zraw(a), zraw(c)) for a, c in sorted(x.truth["bonds"])])}))'
         cases.append(f'rx_ok {zl(o1)} {zl(o2)} {zl(o3)} {mt(rxn.reactants)} {mt(rxn.reagents)} {mt(rxn.products)} '
-                     f'{coqmol.mol_term(ur)} {coqmol.mol_term(up)} ({exp}) {centre}')
+                     f'{skeleton_term(ur)} {skeleton_term(up)} ({exp}) {centre} {truth}')
         meta.append(('rx', x.desc['idx'], x))
         collide = x.truth is None
-        if h is not None and x.truth is not None:
-            cases.append(f'dyn_ok {cgr_term(h)} {zl(sorted(x.truth["atoms"]))} {lst([tup(zraw(a), zraw(c)) for a, c in sorted(x.truth["bonds"])])}')
-            meta.append(('rx-dyn', x.desc['idx'], x))
         ck.case(('rx', x.desc['idx']), nontrivial=h is not None and bool(h.center_atoms))
         ck.count('compose:rxn:' + ('ValueError' if h is None else 'centre' if h.center_atoms else 'no centre') + (':renumbered union' if collide else ''))
-    ok, failing, log = coqcases.run_cases('c15_compose', 'Graph Compose RxnSmiles', cases, extra=EXTRA, shard=250)
+    perm = list(range(len(cases)))
+    rng.shuffle(perm)        # big (reaction) and small cases spread evenly over the shards
+    cases, meta = [cases[i] for i in perm], [meta[i] for i in perm]
+    ok, failing, log = coqcases.run_cases('c15_compose', 'Graph Compose RxnSmiles', cases, extra=EXTRA, shard=max(50, len(cases) // 16 + 1))
     ck.oblige('correspondence: MoleculeContainer.compose / ReactionContainer.compose / Graph.union / center_atoms == Coq model (Compose.v)',
               ok and not failing, 'correspondence', log or str([meta[i][:2] for i in failing[:5]]))
     ck.extra['correspondence_cases_compose'] = len(cases)
@@ -795,7 +868,8 @@ def corr_compose(ck, rxns):
         found = False
         for i in failing[:40]:
             found = directed_compose(ck, meta[i]) or found
-        ck.unchecked('correspondence Compose model vs MoleculeContainer.compose / ReactionContainer.compose', (log or '')[-1500:],
+        ck.unchecked('correspondence Compose model vs MoleculeContainer.compose / ReactionContainer.compose',
+                     (log or '')[-1500:] + localise('c15_compose', cases, failing, NPARTS),
                      [repr(meta[i][:2]) + ' :: ' + cases[i][:300] for i in failing[:20]])
     return ok and not failing
 
@@ -858,7 +932,7 @@ def corr_writer(ck, rxns):
         cases.append(f'fmt1_ok {b("!c" in sp)} {b("!x" in sp)} {ft2[0]} {ft2[1]} {ft2[2]} {cstr(e2)}')
         meta.append(('fmt1', x.desc['idx'], x, sp))
         ck.case(('fmt1', sp, e2), nontrivial=True)
-    ok, failing, log = coqcases.run_cases('c15_writer', 'Graph Compose RxnSmiles', cases, extra=EXTRA, shard=150)
+    ok, failing, log = coqcases.run_cases('c15_writer', 'Graph Compose RxnSmiles', cases, extra=EXTRA, shard=max(20, len(cases) // 16 + 1))
     ck.oblige('correspondence: ReactionContainer.__format__ (per-role sort, ^1: and f: blocks, !c, !x) == Coq model (RxnSmiles.v)',
               ok and not failing, 'correspondence', log or str([meta[i][:2] for i in failing[:5]]))
     ck.extra['correspondence_cases_writer'] = len(cases)
@@ -871,7 +945,8 @@ def corr_writer(ck, rxns):
                 search_roundtrip(ck, meta[i][2])
             except Exception:
                 pass
-        ck.unchecked('correspondence RxnSmiles model vs ReactionContainer.__format__', (log or '')[-1500:],
+        ck.unchecked('correspondence RxnSmiles model vs ReactionContainer.__format__',
+                     (log or '')[-1500:] + localise('c15_writer', cases, failing, NPARTS),
                      [repr(meta[i][:2]) + ' :: ' + cases[i][:300] for i in failing[:20]])
     return ok and not failing
 
@@ -996,7 +1071,7 @@ def corr_reader(ck, rxns):
             ck.case(('read', s, ignore), nontrivial=exp.startswith('Ok (Some'))
             ck.count(f'reader:{kind}:' + (exp.split()[0] + ' ' + exp.split()[1].strip('(') if not exp.startswith('Ok (Some') else 'reaction'
                                           + (':contracted' if 'f:' in s and info and any('.' in m for r in info[1] for m in r) else '')))
-    ok, failing, log = coqcases.run_cases('c15_reader', 'Graph Compose RxnSmiles', cases, extra=EXTRA, shard=300)
+    ok, failing, log = coqcases.run_cases('c15_reader', 'Graph Compose RxnSmiles', cases, extra=EXTRA, shard=max(50, len(cases) // 16 + 1))
     ck.oblige('correspondence: reaction branch of smiles() (whitespace split, cx regexes, role split, f: contraction, radical range) == Coq model (RxnSmiles.v)',
               ok and not failing, 'correspondence', log or str([meta[i] for i in failing[:5]]))
     ck.extra['correspondence_cases_reader'] = len(cases)
